@@ -55,14 +55,14 @@ mod verif_kani_internals {
         match Mdf::new(m, d, YearFlags(fl)) {
             None => assert!(m > 12 || d > 31, "Mdf::new refuses only month > 12 or day > 31"),
             Some(mdf) => {
-                assert!(m <= 12 && d <= 31);
+                assert!(m <= 12 && d <= 31, "m <= 12 && d <= 31");
                 assert!(mdf.month() == m && mdf.day() == d && mdf.year_flags().0 == fl, "Mdf packs month, day, flags");
                 let valid = ymd_valid(y, m as i64, d as i64);
                 assert!(mdf.ordinal().is_some() == valid, "ordinal() exists exactly for existing month-days");
-                assert!(mdf.ordinal_and_flags().is_some() == valid);
+                assert!(mdf.ordinal_and_flags().is_some() == valid, "mdf.ordinal_and_flags().is_some() == valid");
                 if let Some(o) = mdf.ordinal() {
                     assert!(o as i64 == cum_days(y, m as i64) + d as i64, "ordinal = days before the month + day");
-                    assert!(mdf.ordinal_and_flags() == Some(((o << 4) | fl as u32) as i32));
+                    assert!(mdf.ordinal_and_flags() == Some(((o << 4) | fl as u32) as i32), "mdf.ordinal_and_flags() == Some(((o << 4) | fl as u32) as i32)");
                     let back = Mdf::from_ol(((o << 1) | (!leap) as u32) as i32, YearFlags(fl));
                     assert!(back.month() == m && back.day() == d && back.year_flags().0 == fl, "from_ol inverts ordinal()");
                 }
@@ -81,12 +81,12 @@ mod verif_kani_internals {
         let mdf = Mdf::from_ol(((o << 1) | (!leap) as u32) as i32, YearFlags(fl));
         let (m, d) = (mdf.month(), mdf.day());
         assert!(ymd_valid(y, m as i64, d as i64) && cum_days(y, m as i64) + d as i64 == o as i64, "from_ol yields the month-day of that ordinal");
-        assert!(mdf.ordinal() == Some(o));
+        assert!(mdf.ordinal() == Some(o), "mdf.ordinal() == Some(o)");
         let nm: u32 = kani::any(); let nd: u32 = kani::any(); let nf: u8 = kani::any();
         kani::assume(nf < 16);
-        match mdf.with_month(nm) { None => assert!(nm > 12), Some(x) => assert!(nm <= 12 && x.month() == nm && x.day() == d && x.year_flags().0 == fl) }
-        match mdf.with_day(nd) { None => assert!(nd > 31), Some(x) => assert!(nd <= 31 && x.month() == m && x.day() == nd && x.year_flags().0 == fl) }
+        match mdf.with_month(nm) { None => assert!(nm > 12, "nm > 12"), Some(x) => assert!(nm <= 12 && x.month() == nm && x.day() == d && x.year_flags().0 == fl, "nm <= 12 && x.month() == nm && x.day() == d && x.year_flags().0 == fl") }
+        match mdf.with_day(nd) { None => assert!(nd > 31, "nd > 31"), Some(x) => assert!(nd <= 31 && x.month() == m && x.day() == nd && x.year_flags().0 == fl, "nd <= 31 && x.month() == m && x.day() == nd && x.year_flags().0 == fl") }
         let x = mdf.with_flags(YearFlags(nf));
-        assert!(x.month() == m && x.day() == d && x.year_flags().0 == nf);
+        assert!(x.month() == m && x.day() == d && x.year_flags().0 == nf, "x.month() == m && x.day() == d && x.year_flags().0 == nf");
     }
 }
